@@ -82,6 +82,12 @@ func runConc(t *testing.T, sc Scenario) *core.Result {
 			}
 			// one more period so that a last report covers the tail
 			time.Sleep(2*time.Duration(cs.PeriodUS)*time.Microsecond + time.Millisecond)
+			// Close at an instant at which the report goroutine is not held at a yield point and
+			// no tick is due: otherwise its select finds the ticker and the terminate channel ready
+			// together and the runtime picks one at random (the end of the log would differ from
+			// run to run)
+			w.S.ReleaseAllYields()
+			time.Sleep(3*time.Millisecond + 61*time.Nanosecond)
 			rr.Close()
 			mu.Lock()
 			defer mu.Unlock()
